@@ -276,8 +276,8 @@ def behavioural_probes(ctx, world, decl, cname, case):
         checks = [
             ("_by_index=True", lambda: base.without_name(0, _by_index=True).names, ["Q"]),
             ("_by_index=False", lambda: base.without_name(0, _by_index=False).names, ValueError),
-            ("_insert=True", lambda: base.with_name("Z", _index=0, _insert=True).names, ["Z", "p", "q"]),
-            ("_insert=False", lambda: base.with_name("Z", _index=0, _insert=False).names, ["Z", "q"]),
+            ("_insert=True", lambda: base.with_name("Z", _index=0, _insert=True).names, ["Z", "P", "Q"]),
+            ("_insert=False", lambda: base.with_name("Z", _index=0, _insert=False).names, ["Z", "Q"]),
             ("_if=False", lambda: base.with_name("Z", _if=False) is base, True),
             ("_inplace=False", lambda: base.with_name("Z") is base, False),
         ]
